@@ -33,6 +33,7 @@ pub fn quad_how() -> BoxedStrategy<QuadHow> {
         3 => int_ty().prop_map(QuadHow::FromQVector),
         2 => uint_ty().prop_map(QuadHow::NewSlice),
         2 => int_ty().prop_map(QuadHow::Collect),
+        1 => prop_oneof![Just(4u8), Just(0), Just(2), Just(9), 0u8..40].prop_map(QuadHow::Builder),
     ]
     .boxed()
 }
